@@ -564,3 +564,101 @@ func TestC30WitnessF28(tt *testing.T) {
 	}
 	tt.Log("no schedule of the witness family triggers C30-F28 any more")
 }
+
+// TestC30Preemptions enumerates systematically (no random choice): for fixed small scenarios every schedule
+// with at most two context switches between reader and writer at the instrumented file operations
+// (reader runs a steps, writer runs b steps, reader to its end, writer to its end — and the mirrored
+// order), thorough: three switches on a stride. This is preemption-bounded exhaustive exploration, the
+// part of the schedule space where the renamed-directory recovery lives.
+func TestC30Preemptions(tt *testing.T) {
+	type scenario struct {
+		name   string
+		slots  []int // write-outs (slot offsets; 288 = next day)
+		reader string
+		lowmem bool
+	}
+	scenarios := []scenario{
+		{"append-to-day/query", []int{1}, "query", true},
+		{"append-to-day/query-readall", []int{1}, "query", false},
+		{"new-day/query", []int{288}, "query", true},
+		{"append-to-day/list", []int{1}, "list", true},
+		{"two-appends/query", []int{1, 1}, "query", true},
+	}
+	if !evid.Thorough() {
+		scenarios = scenarios[:3]
+	}
+	inF28 := evid.IsOpen("C30-F28")
+	run := func(sc scenario, phases []phase) outcome {
+		dir, err := os.MkdirTemp(os.Getenv("VERIF_WORK"), "c30p-")
+		if err != nil {
+			tt.Fatalf("tempdir: %v", err)
+		}
+		defer os.RemoveAll(dir)
+		pre := model.Block{Ts: day0 + 300, Flows: []model.Flow{mkFlow(0, 0)}, Drops: 1}
+		if err := goDB.NewDBWriter(dir, "eth0", encoders.EncoderTypeLZ4).Write(gen.FlowMapOf(pre.Flows), capturetypes.CaptureStats{Dropped: pre.Drops}, pre.Ts); err != nil {
+			tt.Fatalf("harness: %v", err)
+		}
+		var outs []*wout
+		slot := 1
+		for i, adv := range sc.slots {
+			slot += adv
+			outs = append(outs, &wout{block: model.Block{Ts: day0 + int64(slot)*300, Flows: []model.Flow{mkFlow(i+1, 0), mkFlow(i+1, 1)}}, startTick: -1, doneTick: -1})
+		}
+		var oc outcome
+		synctest.Test(tt, func(_ *testing.T) {
+			oc = runBubble(dir, pre, outs, sc.reader, 1, sc.lowmem, phases, []int{0}, 0, false)
+		})
+		return oc
+	}
+	const inf = 1 << 20
+	for _, sc := range scenarios {
+		// count the steps of each side
+		all := run(sc, []phase{{"reader", inf}, {"writer", inf}})
+		R, W := 0, 0
+		for _, st := range all.trace {
+			if strings.HasPrefix(st, "r:") {
+				R++
+			} else {
+				W++
+			}
+		}
+		stride := evid.Pick(2, 1)
+		n := 0
+		check := func(phases []phase, label string) {
+			oc := run(sc, phases)
+			n++
+			nt := oc.writerStepsInside > 0
+			evid.Case(sc.name+"|"+label, nt, "preemption-bounded", "scenario:"+sc.name)
+			if n%97 == 1 {
+				evid.Sample(map[string]any{"scenario": sc.name, "schedule": label, "trace": strings.Join(oc.trace, " ")}, nt)
+			}
+			if oc.inconclusive != "" {
+				tt.Fatalf("INCONCLUSIVE[%s]", oc.inconclusive)
+			}
+			if oc.failSig != "" {
+				if inF28 && secondRenameDuringRecovery(oc.trace) && evid.Known("C30-F28", oc.failMsg+"; "+sc.name+" "+label) {
+					return
+				}
+				tt.Fatalf("%s", evid.Sig(oc.failSig, "%s\n  scenario %s, schedule %s\n  trace: %s", oc.failMsg, sc.name, label, strings.Join(oc.trace, " ")))
+			}
+		}
+		for a := 0; a <= R; a += stride {
+			for b := 0; b <= W; b += stride {
+				check([]phase{{"reader", a}, {"writer", b}, {"reader", inf}, {"writer", inf}}, fmt.Sprintf("r%d w%d r* w*", a, b))
+				check([]phase{{"writer", b}, {"reader", a}, {"writer", inf}, {"reader", inf}}, fmt.Sprintf("w%d r%d w* r*", b, a))
+			}
+		}
+		if evid.Thorough() {
+			// three switches on a stride
+			for a := 0; a <= R; a += 3 {
+				for b := 1; b <= W; b += 3 {
+					for c := 1; a+c <= R; c += 3 {
+						check([]phase{{"reader", a}, {"writer", b}, {"reader", c}, {"writer", inf}, {"reader", inf}}, fmt.Sprintf("r%d w%d r%d w* r*", a, b, c))
+					}
+				}
+			}
+		}
+		evid.Note("preemption_bounded_"+strings.ReplaceAll(sc.name, "/", "_"), fmt.Sprintf("reader steps %d, writer steps %d, schedules %d", R, W, n))
+	}
+	evid.Exhaustive(evid.Thorough())
+}
